@@ -12,6 +12,7 @@ import (
 	"os"
 	"os/exec"
 	"path/filepath"
+	"regexp"
 	"strings"
 
 	"luahelper-lsp/langserver/check/annotation/annotateast"
@@ -697,12 +698,14 @@ func runC16(c *Ctx) {
 	// end-to-end through the server
 	c16EndToEnd(c, root.Fork(424242))
 	c16BlockNeighbours(c, root.Fork(434343))
+	c16ReturnBlocks(c, root.Fork(444444))
 	c.Finish("annotation lines derived from the documented grammar (type, class, field, param, return, alias, generic, overload, vararg; unions, arrays, table<K,V>, fun types, "+
 		"parentheses, optional markers, trailing @comments; type depth 0-4) are parsed by LuaHelper's own annotation parser inside a worker process and the understood "+
 		"structure is compared with an independent model of the documented grammar; printable types are printed and read again (round trip); end-to-end, conformant lines "+
 		"must produce no type-18 diagnostic and single corruptions of one line may only add type-18 diagnostics on that line and must leave the hover of a neighbouring "+
 		"annotated variable unchanged; a malformed line in the middle of a multi-line block (fields of a class, parameters of a "+
-		"function) must leave what the other lines of that block declare unchanged. distinct_nontrivial = distinct annotation lines checked", 1000)
+		"function) must leave what the other lines of that block declare unchanged; in blocks of several ---@return lines with one to three values each, "+
+		"the n-th return value shown for the function has the n-th declared type and the trailing comment of the line that declares it. distinct_nontrivial = distinct annotation lines checked", 1000)
 }
 
 // annoShape: the most specific syntactic feature of the line (for signatures)
@@ -1057,6 +1060,129 @@ func c16BlockNeighbours(c *Ctx, r *Rng) {
 				c.Report(fmt.Sprintf("malformed-line-changes-block-neighbour|%s|%s|%s", blk, where, kind),
 					fmt.Sprintf("corrupting line %d to %q changes what %s (declared %s the bad line) is understood as: %q -> %q", ln, bad, p.what, where, truncate(bh[pi], 100), truncate(mh[pi], 100)),
 					map[string]interface{}{"file": strings.Join(ml, "\n"), "line": ln})
+			}
+		}
+	})
+}
+
+// c16ReturnBlocks: comment blocks whose ---@return lines declare one to three values each (the documented form
+// `---@return TYPE, TYPE @comment` followed by further ---@return lines): the n-th return value of the function is the n-th
+// declared value over all lines, with the type written for it and the trailing comment of the line that declares it - never the
+// comment of a neighbouring line.
+func c16ReturnBlocks(c *Ctx, r *Rng) {
+	n := c.N(150, 5000)
+	lineRe := regexp.MustCompile(`->(\d+)\. ([^\n]*)`)
+	parallel(n, 12, func(i int) {
+		rr := r.Fork(uint64(i))
+		types := []string{"number", "string", "boolean", "People", "table", "any"}
+		lines := []string{"---@class People", "---@field pname string", "local People = {}", ""}
+		type fn struct {
+			name         string
+			line, col    int
+			types, notes []string // per return value: its type, and the comment token of its line ("" = the line has no comment)
+		}
+		var fns []fn
+		tok := 0
+		for k := rr.Range(2, 4); k > 0; k-- {
+			f := fn{name: fmt.Sprintf("rfun%d", k)}
+			np := rr.Intn(3)
+			var ps []string
+			for p := 0; p < np; p++ {
+				ps = append(ps, fmt.Sprintf("p%d", p))
+				lines = append(lines, fmt.Sprintf("---@param p%d %s @paramnote%d", p, rr.Pick(types), p))
+			}
+			for l := rr.Range(1, 3); l > 0; l-- {
+				var ts []string
+				for v := rr.Range(1, 3); v > 0; v-- {
+					ts = append(ts, rr.Pick(types))
+				}
+				note := ""
+				if rr.Chance(2, 3) {
+					tok++
+					note = fmt.Sprintf("retnote%dq", tok)
+				}
+				ln := "---@return " + strings.Join(ts, rr.Pick([]string{", ", ","}))
+				if note != "" {
+					ln += " @" + note
+				}
+				lines = append(lines, ln)
+				for _, t := range ts {
+					f.types = append(f.types, t)
+					f.notes = append(f.notes, note)
+				}
+			}
+			head := rr.Pick([]string{"function ", "local function "})
+			f.line, f.col = len(lines), len(head)+1
+			lines = append(lines, head+f.name+"("+strings.Join(ps, ", ")+")", "end", "print("+f.name+")", "")
+			fns = append(fns, f)
+		}
+		text := strings.Join(lines, "\n") + "\n"
+		ws := c.NewWorkspace(map[string]string{"ret.lua": text})
+		defer ws.Remove()
+		srv, err := StartServer(ServerOpts{Root: ws.Root, Tag: fmt.Sprintf("c16r%d", i)})
+		if err != nil {
+			if srv != nil {
+				srv.Close()
+			}
+			c.Inconclusive("server failed on an annotation file (C01's business)")
+			return
+		}
+		defer srv.Close()
+		srv.DidOpen(ws.URI("ret.lua"), text)
+		for u, ds := range srv.View() {
+			for _, d := range ds {
+				if d.Type == 18 && ws.Rel(u) == "ret.lua" {
+					c.Report("conformant-line-warned|return-block", fmt.Sprintf("annotation warning on a documented return block: line %d %s", d.Range.Start.Line, d.Message), map[string]interface{}{"file": text})
+				}
+			}
+		}
+		for _, f := range fns {
+			hv, _, err := srv.Hover(ws.URI("ret.lua"), f.line, f.col)
+			if err != nil {
+				c.Inconclusive("server failed on an annotation file (C01's business)")
+				return
+			}
+			c.Count("return_block_hovers", 1)
+			h := ""
+			if hv != nil {
+				h = hv.Contents.Value
+			}
+			if k := strings.Index(h, "\n---\n"); k >= 0 {
+				h = h[:k] // the signature part; the annotation lines are repeated verbatim below the rule
+			}
+			got := map[int]string{}
+			for _, m := range lineRe.FindAllStringSubmatch(h, -1) {
+				var idx int
+				fmt.Sscan(m[1], &idx)
+				got[idx] = m[2]
+			}
+			c.Count("return_values_compared", int64(len(f.types)))
+			c.Distinct(fmt.Sprint(f.types, f.notes))
+			for vi := range f.types {
+				g, ok := got[vi+1]
+				bad := ""
+				switch {
+				case !ok:
+					bad = "value-missing"
+				case !strings.HasPrefix(g, f.types[vi]):
+					bad = "type"
+				case f.notes[vi] != "" && !strings.Contains(g, f.notes[vi]):
+					bad = "comment-of-its-line-missing"
+				default:
+					for _, m := range regexp.MustCompile(`retnote\d+q|paramnote\d+`).FindAllString(g, -1) {
+						if m != f.notes[vi] {
+							bad = "comment-of-another-line"
+						}
+					}
+				}
+				if bad != "" {
+					c.Report("return-block-structure|"+bad, fmt.Sprintf("return value %d of %s (declared %s, comment %q) is shown as %q", vi+1, f.name, f.types[vi], f.notes[vi], g),
+						map[string]interface{}{"file": text, "function": f.name, "hover": h})
+					break
+				}
+			}
+			if len(got) > len(f.types) {
+				c.Report("return-block-structure|surplus-values", fmt.Sprintf("%s declares %d return values, the hover shows %d", f.name, len(f.types), len(got)), map[string]interface{}{"file": text, "hover": h})
 			}
 		}
 	})
